@@ -22,7 +22,8 @@ theorem dataReceived_lost (s : S) (d : Bytes) (hl : s.lost = true) : dataReceive
 theorem dataReceived_live (s : S) (d : Bytes) (hl : s.lost = false) (hs : s.st = .opened ∨ s.st = .closing) :
     dataReceived s d =
       { (drain (drainFuel (s.data ++ d)) { s with data := [] } (s.data ++ d)).1 with
-        data := (drain (drainFuel (s.data ++ d)) { s with data := [] } (s.data ++ d)).2 } := by
+        data := if (drain (drainFuel (s.data ++ d)) { s with data := [] } (s.data ++ d)).1.wasClean then []
+                else (drain (drainFuel (s.data ++ d)) { s with data := [] } (s.data ++ d)).2 } := by
   unfold dataReceived
   rcases hs with h | h <;> simp [hl, h]
 
@@ -66,7 +67,8 @@ theorem dataReceived_append (s : S) (a b : Bytes) (hwf : LiveWF s) (hf : s.cfg.f
       generalize drain (drainFuel (s.data ++ a ++ b)) { s with data := [] } (s.data ++ a ++ b) = r3 at A
       have hl1 : r1.1.lost = false := by rw [hE.lost]; exact hl
       by_cases hc : r1.1.st = .closed
-      · rw [dataReceived_idle { r1.1 with data := r1.2 } b hl1 (Or.inr hc)]
+      · generalize (if r1.1.wasClean = true then [] else r1.2) = d1
+        rw [dataReceived_idle { r1.1 with data := d1 } b hl1 (Or.inr hc)]
         exact Or.inr (A.1 hc)
       · have hlive : r1.1.st = .opened ∨ r1.1.st = .closing := by
           have hr := hE.rank
@@ -77,13 +79,34 @@ theorem dataReceived_append (s : S) (a b : Bytes) (hwf : LiveWF s) (hf : s.cfg.f
           | opened => exact Or.inl rfl
           | closing => exact Or.inr rfl
           | closed => exact absurd h1 hc
-        rw [dataReceived_live { r1.1 with data := r1.2 } b hl1 hlive]
-        simp only
         have hself : ({ r1.1 with data := [] } : S) = r1.1 := setData_self _ (by rw [hD])
-        rw [hself]
-        rcases A.2 hc (drainFuel (r1.2 ++ b)) (mu_lt_drainFuel _ _) with e | d
-        · rw [e]; exact Sim.refl _
-        · exact Or.inr d
+        cases hwc : r1.1.wasClean with
+        | true =>
+          -- the peer's close frame was taken in during the first read: the second read is discarded
+          simp only [if_true]
+          rw [dataReceived_live { r1.1 with data := [] } b hl1 hlive]
+          simp only [List.nil_append]
+          rw [hself]
+          obtain ⟨F, hFe⟩ : ∃ F, drainFuel b = F + 1 := ⟨drainFuel b - 1, by unfold drainFuel; omega⟩
+          rw [hFe, drain_clean F r1.1 b hwc]
+          simp only [hwc, if_true]
+          have hA := A.2 hc (drainFuel (r1.2 ++ b)) (mu_lt_drainFuel _ _)
+          obtain ⟨F', hFe'⟩ : ∃ F', drainFuel (r1.2 ++ b) = F' + 1 :=
+            ⟨drainFuel (r1.2 ++ b) - 1, by unfold drainFuel; omega⟩
+          rw [hFe', drain_clean F' r1.1 (r1.2 ++ b) hwc] at hA
+          rcases hA with e | d
+          · rw [← e]
+            simp only [hwc, if_true]
+            exact Sim.refl _
+          · exact Or.inr d
+        | false =>
+          simp only [Bool.false_eq_true, if_false]
+          rw [dataReceived_live { r1.1 with data := r1.2 } b hl1 hlive]
+          simp only
+          rw [hself]
+          rcases A.2 hc (drainFuel (r1.2 ++ b)) (mu_lt_drainFuel _ _) with e | d
+          · rw [e]; exact Sim.refl _
+          · exact Or.inr d
     · -- not reading: the octets are only buffered
       have hs' : s.st = .connecting ∨ s.st = .closed := by
         cases h1 : s.st with
